@@ -62,6 +62,9 @@ func (t Thing) TakesPtr(p *Thing) string                        { return "tp" }
 func (t Thing) TakesIface(v interface{}) string                 { return fmt.Sprint(v) }
 func (t Thing) TakesFloat(f float64) float64                    { return f * 2 }
 func (t Thing) TakesSlice(s []int) int                          { return len(s) }
+func (t Thing) TakesUint(u uint64) uint64                       { return u }
+func (t Thing) TakesInt8(i int8) int8                           { return i }
+func (t Thing) TakesUint8(u uint8) uint8                        { return u }
 func (t Thing) hiddenMethod() string                            { return "h" }
 
 // NewThing builds a populated Thing.
@@ -180,7 +183,7 @@ func Keys() []Named {
 	var nilPtr *int
 	return []Named{
 		N("'a'", "a"), N("'k'", "k"), N("'1'", "1"), N("'0'", "0"), N("'Name'", "Name"), N("'hidden'", "hidden"), N("'ValueMethod'", "ValueMethod"), N("'PtrMethod'", "PtrMethod"),
-		N("'Add'", "Add"), N("'Variadic'", "Variadic"), N("'Join'", "Join"), N("'Fmt'", "Fmt"), N("'Two'", "Two"), N("'Nothing'", "Nothing"), N("'NilFunc'", "NilFunc"), N("'Fn'", "Fn"), N("'TakesPtr'", "TakesPtr"),
+		N("'Add'", "Add"), N("'Variadic'", "Variadic"), N("'Join'", "Join"), N("'Fmt'", "Fmt"), N("'Two'", "Two"), N("'Nothing'", "Nothing"), N("'NilFunc'", "NilFunc"), N("'Fn'", "Fn"), N("'TakesPtr'", "TakesPtr"), N("'TakesUint'", "TakesUint"), N("'TakesInt8'", "TakesInt8"), N("'TakesUint8'", "TakesUint8"),
 		N("'TakesIface'", "TakesIface"), N("'TakesFloat'", "TakesFloat"), N("'TakesSlice'", "TakesSlice"), N("'Concat'", "Concat"), N("'hiddenMethod'", "hiddenMethod"), N("'missing'", "missing"), N("''", ""),
 		N("'Items'", "Items"), N("'Inner'", "Inner"), N("'Any'", "Any"), N("'Attrs'", "Attrs"), N("'ID'", "ID"), N("'note'", "note"), N("'innerLower'", "innerLower"), N("'A'", "A"), N("'B'", "B"), N("'C'", "C"), N("'N'", "N"), N("'Extra'", "Extra"), N("'Hello'", "Hello"), N("'PtrHello'", "PtrHello"), N("'PP'", "PP"), N("'Next'", "Next"), N("KeyStr('a')", KeyStr("a")), N("KeyStringer('a')", KeyStringer("a")), N("OuterIface{slice}", OuterIface{Any: []int{1}}), N("KeyInt(1)", KeyInt(1)), N("'true'", "true"),
 		// strings that strconv.ParseFloat accepts but that are no usable index
@@ -199,6 +202,8 @@ func ArgLists() [][]stick.Value {
 	return [][]stick.Value{
 		{}, {1}, {1, 2}, {1, 2, 3}, {"a"}, {"a", "b"}, {nil}, {nil, nil}, {1.5}, {1.5, 2.0}, {2.0, 3.0}, {"1", "2"}, {true}, {&th}, {nilThing}, {th},
 		{[]int{1, 2}}, {[]stick.Value{1}}, {1, "b"}, {int64(1), int8(2)}, {math.NaN()}, {func() {}},
+		// numbers that do not fit the parameter: negative for unsigned, too large, wrapping around
+		{-1}, {int64(-1)}, {300}, {uint64(1 << 63)}, {-129}, {int8(-1)}, {1e30}, {-0.0},
 	}
 }
 
